@@ -512,3 +512,399 @@ Section ItemEquiv.
       apply mem_z_false in Hu. now rewrite Hu.
   Qed.
 End ItemEquiv.
+
+(* ------------------------------------------------------------------------------------ *)
+(* statement lists and files                                                              *)
+(* ------------------------------------------------------------------------------------ *)
+
+Section ItemsEquiv.
+  Variable pc : list string -> string -> res def.
+  Variable vc : list string -> string -> def -> Prop.
+  Variable kf : string -> bool.
+  Variable trad : bool.
+  Variable file : string.
+  Variable fstack : list string.
+
+  Lemma items_sound div0 :
+    (forall stk g d, pc stk g = Ok d -> vc stk g d) ->
+    forall its outer cur cur',
+      proc_items pc kf trad file fstack outer cur its = Ok cur' ->
+      items_ok vc kf trad div0 file fstack outer cur its cur'.
+  Proof.
+    intros Hpc. induction its as [|i r IH]; intros outer cur cur' H.
+    - cbn [proc_items] in H. inversion H. reflexivity.
+    - cbn [proc_items] in H.
+      destruct (proc_item pc kf trad file fstack outer cur i) as [fm|] eqn:Ei; cbn [bind] in H; [|discriminate].
+      exists fm. split; [now apply (item_sound pc vc)|now apply IH].
+  Qed.
+
+  Lemma items_complete :
+    (forall stk g d, vc stk g d -> pc stk g = Ok d) ->
+    (forall stk g d, vc stk g d -> exists f n m, d = DProto f n m) ->
+    forall its outer cur cur',
+      items_ok vc kf trad false file fstack outer cur its cur' ->
+      proc_items pc kf trad file fstack outer cur its = Ok cur'.
+  Proof.
+    intros Hvc Hpr. induction its as [|i r IH]; intros outer cur cur' H.
+    - cbn [items_ok] in H. now subst.
+    - destruct H as [fm [H1 H2]]. cbn [proc_items].
+      rewrite (item_complete pc vc kf trad file fstack Hvc Hpr _ _ _ _ H1). cbn [bind]. now apply IH.
+  Qed.
+End ItemsEquiv.
+
+Lemma file_ok_proto n fs trad div0 stk g d :
+  file_ok n fs trad div0 stk g d -> exists f nm m, d = DProto f nm m.
+Proof. destruct n; [contradiction|]. intros [its [fr [name [_ [_ [_ ->]]]]]]. eauto. Qed.
+
+Lemma file_sound div0 fs trad : forall n fstack f d,
+  parse_file n fs trad fstack f = Ok d -> file_ok n fs trad div0 fstack f d.
+Proof.
+  induction n as [|n IH]; intros fstack f d H; [discriminate|].
+  cbn [parse_file] in H. cbn [file_ok].
+  destruct (assoc f fs) as [its|] eqn:Ea; [|discriminate].
+  destruct (proc_items _ _ _ _ _ _ _ its) as [fr|] eqn:Ep; cbn [bind] in H; [|discriminate].
+  destruct (fk fr) as [[name|]| |] eqn:Ek; try discriminate. inversion H; subst d.
+  exists its, fr, name. repeat split; try assumption.
+  apply (items_sound (parse_file n fs trad) (file_ok n fs trad div0)); [|exact Ep].
+  intros stk g d. apply IH.
+Qed.
+
+Lemma file_complete fs trad : forall n fstack f d,
+  file_ok n fs trad false fstack f d -> parse_file n fs trad fstack f = Ok d.
+Proof.
+  induction n as [|n IH]; intros fstack f d H; [contradiction|].
+  cbn [file_ok] in H. destruct H as [its [fr [name [Ha [Hi [Hk ->]]]]]].
+  cbn [parse_file]. rewrite Ha.
+  rewrite (items_complete (parse_file n fs trad) (file_ok n fs trad false) (known fs) trad f (f :: fstack)
+             (fun stk g d => IH stk g d) (file_ok_proto n fs trad false) _ _ _ _ Hi).
+  cbn [bind]. now rewrite Hk.
+Qed.
+
+(* ------------------------------------------------------------------------------------ *)
+(* fuel: S (length fs) import levels always suffice                                       *)
+(* ------------------------------------------------------------------------------------ *)
+
+Definition is_fuel {A} (r : res A) : bool :=
+  match r with Err KFuel _ _ => true | _ => false end.
+
+Lemma bind_fuel {A B} (r : res A) (f : A -> res B) :
+  is_fuel (bind r f) = false -> is_fuel r = false.
+Proof. destruct r as [a|k x y]; [reflexivity|]. cbn [bind]. destruct k; cbn; congruence. Qed.
+
+Lemma is_fuel_err_inv {A} (r : res A) : is_fuel r = false -> forall f l, r <> Err KFuel f l.
+Proof. intros H f l E. subst. discriminate. Qed.
+
+Section Fuel.
+  Variable pc1 pc2 : list string -> string -> res def.
+  Variable kf : string -> bool.
+  Variable trad : bool.
+  Variable file : string.
+  Variable fstack : list string.
+
+  (* the only calls of parse_child are on [fstack] and a known file not on the stack *)
+  Definition called (g : string) : Prop := kf g = true /\ mem_s g fstack = false.
+
+  (* if pc2 agrees with pc1 wherever pc1 does not run out of fuel, so do the runs *)
+  Hypothesis Hmono : forall g, called g -> is_fuel (pc1 fstack g) = false -> pc2 fstack g = pc1 fstack g.
+
+  Lemma proc_item_mono : forall it outer cur,
+    is_fuel (proc_item pc1 kf trad file fstack outer cur it) = false ->
+    proc_item pc2 kf trad file fstack outer cur it = proc_item pc1 kf trad file fstack outer cur it.
+  Proof.
+    induction it as [l nm|l a g|l nm v|l nm v|l nm t|l nm b body IH|l nm x body IH|l t nm k|l nm v]
+      using item_ind'; intros outer cur H; try reflexivity.
+    - (* import *)
+      cbn [proc_item] in *.
+      destruct (kf g) eqn:Ek; cbn [negb] in *; [|reflexivity].
+      destruct (mem_s g fstack) eqn:Ec; [reflexivity|].
+      destruct (mem_s g (imported_files _)); [reflexivity|].
+      apply bind_fuel in H. rewrite (Hmono g (conj Ek Ec) H). reflexivity.
+    - (* enum *)
+      destruct b as [| |w|w|p]; try reflexivity.
+      rewrite !proc_item_enum in *. destruct (GenFront.uint_cap_raises w); [reflexivity|].
+      apply bind_fuel in H.
+      assert (E : proc_items pc2 kf trad file fstack (cur :: outer) (mkframe (FEnum (mkloc file l) w) []) body =
+                  proc_items pc1 kf trad file fstack (cur :: outer) (mkframe (FEnum (mkloc file l) w) []) body).
+      { revert H. generalize (mkframe (FEnum (mkloc file l) w) []).
+        induction body as [|i r IHr]; intros f0 H; [reflexivity|].
+        inversion IH as [|? ? Hi Hr]; subst. cbn [proc_items] in *.
+        rewrite (Hi _ _ (bind_fuel _ _ H)).
+        destruct (proc_item pc1 kf trad file fstack (cur :: outer) f0 i); cbn [bind] in *; [|reflexivity].
+        now apply IHr. }
+      now rewrite E.
+    - (* message *)
+      rewrite !proc_item_msg in *. destruct (x && trad); [reflexivity|].
+      apply bind_fuel in H.
+      assert (E : proc_items pc2 kf trad file fstack (cur :: outer) (mkframe (FMsg (mkloc file l) x) []) body =
+                  proc_items pc1 kf trad file fstack (cur :: outer) (mkframe (FMsg (mkloc file l) x) []) body).
+      { revert H. generalize (mkframe (FMsg (mkloc file l) x) []).
+        induction body as [|i r IHr]; intros f0 H; [reflexivity|].
+        inversion IH as [|? ? Hi Hr]; subst. cbn [proc_items] in *.
+        rewrite (Hi _ _ (bind_fuel _ _ H)).
+        destruct (proc_item pc1 kf trad file fstack (cur :: outer) f0 i); cbn [bind] in *; [|reflexivity].
+        now apply IHr. }
+      now rewrite E.
+  Qed.
+
+  Lemma proc_items_mono : forall its outer cur,
+    is_fuel (proc_items pc1 kf trad file fstack outer cur its) = false ->
+    proc_items pc2 kf trad file fstack outer cur its = proc_items pc1 kf trad file fstack outer cur its.
+  Proof.
+    induction its as [|i r IH]; intros outer cur H; [reflexivity|].
+    cbn [proc_items] in *. rewrite (proc_item_mono _ _ _ (bind_fuel _ _ H)).
+    destruct (proc_item pc1 kf trad file fstack outer cur i); cbn [bind] in *; [|reflexivity].
+    now apply IH.
+  Qed.
+End Fuel.
+
+Section NoFuel.
+  Variable pc : list string -> string -> res def.
+  Variable kf : string -> bool.
+  Variable trad : bool.
+  Variable file : string.
+  Variable fstack : list string.
+  Hypothesis Hnf : forall g, called kf fstack g -> is_fuel (pc fstack g) = false.
+
+  Lemma push_then_nofuel f ik n d : is_fuel (push_then f ik n d) = false.
+  Proof.
+    unfold push_then, push_member. destruct (has_name n (fmem f)); [reflexivity|].
+    destruct (validate_on_push f n d) as [[]|k a b] eqn:E; cbn [bind].
+    - destruct (unsupported f ik (def_loc d)) as [[]|k a b] eqn:E2; cbn [bind]; [reflexivity|].
+      unfold unsupported in E2. destruct (fk f), ik; inversion E2; reflexivity.
+    - unfold validate_on_push, validate_option in E.
+      repeat match type of E with
+             | match ?x with _ => _ end = _ => destruct x
+             | (if ?c then _ else _) = _ => destruct c
+             end; inversion E; reflexivity.
+  Qed.
+
+  Lemma resolve_const_nofuel st l p : is_fuel (resolve_const_ref file st l p) = false.
+  Proof. unfold resolve_const_ref. destruct (lookup st p) as [d|]; [destruct (def_const d)|]; reflexivity. Qed.
+
+  Lemma resolve_sty_nofuel st l s : is_fuel (resolve_sty file st l s) = false.
+  Proof.
+    destruct s; cbn [resolve_sty]; try reflexivity.
+    - destruct (GenFront.uint_cap_raises n); reflexivity.
+    - destruct (GenFront.int_cap_raises n); reflexivity.
+    - unfold resolve_type_ref. destruct (lookup st p) as [d|]; [destruct (def_type d)|]; reflexivity.
+  Qed.
+
+  Lemma resolve_tyx_nofuel st l t : is_fuel (resolve_tyx file trad st l t) = false.
+  Proof.
+    destruct t as [s|s c ext]; cbn [resolve_tyx]; [apply resolve_sty_nofuel|].
+    pose proof (resolve_sty_nofuel st l s) as Hs.
+    destruct (resolve_sty file st l s) as [er|k a b]; cbn [bind]; [|exact Hs].
+    assert (Hc : is_fuel (resolve_cap file st l c) = false).
+    { destruct c as [z|p]; cbn [resolve_cap]; [reflexivity|].
+      pose proof (resolve_const_nofuel st l p) as Hp.
+      destruct (resolve_const_ref file st l p) as [v|k a b]; cbn [bind]; [destruct v; reflexivity|exact Hp]. }
+    destruct (resolve_cap file st l c) as [n|k a b]; cbn [bind]; [|exact Hc].
+    destruct (ext && trad); [reflexivity|]. destruct (GenFront.array_cap_raises n); reflexivity.
+  Qed.
+
+  Lemma eval_cexpr_nofuel st l e : is_fuel (eval_cexpr file st l e) = false.
+  Proof.
+    induction e as [z|p|a IHa b IHb|a IHa b IHb|a IHa b IHb|a IHa b IHb]; cbn [eval_cexpr]; try reflexivity.
+    - pose proof (resolve_const_nofuel st l p) as Hp.
+      destruct (resolve_const_ref file st l p) as [v|k x y]; cbn [bind]; [destruct v; reflexivity|exact Hp].
+    - destruct (eval_cexpr file st l a); cbn [bind]; [|exact IHa].
+      destruct (eval_cexpr file st l b); cbn [bind]; [reflexivity|exact IHb].
+    - destruct (eval_cexpr file st l a); cbn [bind]; [|exact IHa].
+      destruct (eval_cexpr file st l b); cbn [bind]; [reflexivity|exact IHb].
+    - destruct (eval_cexpr file st l a); cbn [bind]; [|exact IHa].
+      destruct (eval_cexpr file st l b); cbn [bind]; [reflexivity|exact IHb].
+    - destruct (eval_cexpr file st l a); cbn [bind]; [|exact IHa].
+      destruct (eval_cexpr file st l b) as [y|]; cbn [bind]; [|exact IHb].
+      destruct (y =? 0); reflexivity.
+  Qed.
+
+  Lemma proc_item_nofuel : forall it outer cur,
+    is_fuel (proc_item pc kf trad file fstack outer cur it) = false.
+  Proof.
+    induction it as [l nm|l a g|l nm v|l nm v|l nm t|l nm b body IH|l nm x body IH|l t nm k|l nm v]
+      using item_ind'; intros outer cur.
+    - cbn [proc_item]. destruct (fk cur); reflexivity.
+    - cbn [proc_item].
+      destruct (kf g) eqn:Ek; cbn [negb]; [|reflexivity].
+      destruct (mem_s g fstack) eqn:Ec; [reflexivity|].
+      destruct (mem_s g (imported_files _)); [reflexivity|].
+      pose proof (Hnf g (conj Ek Ec)) as Hg.
+      destruct (pc fstack g) as [child|k x y]; cbn [bind]; [|exact Hg].
+      match goal with |- is_fuel (if has_name ?n _ then _ else _) = _ => set (name := n) end.
+      destruct (has_name name _); [reflexivity|].
+      unfold push_member. destruct (has_name name (fmem cur)); [reflexivity|].
+      assert (Hv : forall k a b, validate_on_push cur name child = Err k a b -> k <> KFuel).
+      { intros k0 a0 b0 E. unfold validate_on_push, validate_option in E.
+        repeat match type of E with
+               | match ?x with _ => _ end = _ => destruct x
+               | (if ?c then _ else _) = _ => destruct c
+               end; inversion E; discriminate. }
+      destruct (validate_on_push cur name child) as [[]|k0 a0 b0] eqn:E; cbn [bind].
+      + destruct (fk cur); reflexivity.
+      + specialize (Hv k0 a0 b0 eq_refl). destruct k0; try reflexivity. contradiction.
+    - cbn [proc_item]. destruct v as [cv|p]; cbn [eval_optx bind]; [apply push_then_nofuel|].
+      pose proof (resolve_const_nofuel (cur :: outer) l p) as Hp.
+      destruct (resolve_const_ref file (cur :: outer) l p); cbn [bind]; [apply push_then_nofuel|exact Hp].
+    - cbn [proc_item].
+      assert (Hv : is_fuel (eval_cvalx file (cur :: outer) l v) = false).
+      { destruct v as [b|s|p|e]; cbn [eval_cvalx]; try reflexivity; [apply resolve_const_nofuel|].
+        pose proof (eval_cexpr_nofuel (cur :: outer) l e) as He.
+        destruct (eval_cexpr file (cur :: outer) l e); cbn [bind]; [reflexivity|exact He]. }
+      destruct (eval_cvalx file (cur :: outer) l v); cbn [bind]; [apply push_then_nofuel|exact Hv].
+    - cbn [proc_item]. pose proof (resolve_tyx_nofuel (cur :: outer) l t) as Ht.
+      destruct (resolve_tyx file trad (cur :: outer) l t); cbn [bind]; [|exact Ht].
+      destruct t as [[| | | |p]|]; try apply push_then_nofuel. reflexivity.
+    - destruct b as [| |w|w|p]; try (cbn; repeat match goal with |- context [if ?c then _ else _] => destruct c end; reflexivity).
+      rewrite proc_item_enum. destruct (GenFront.uint_cap_raises w); [reflexivity|].
+      assert (Hb : forall f0, is_fuel (proc_items pc kf trad file fstack (cur :: outer) f0 body) = false).
+      { induction body as [|i r IHr]; intros f0; [reflexivity|].
+        inversion IH as [|? ? Hi Hr]; subst. cbn [proc_items].
+        pose proof (Hi (cur :: outer) f0) as H0.
+        destruct (proc_item pc kf trad file fstack (cur :: outer) f0 i); cbn [bind]; [now apply IHr|exact H0]. }
+      specialize (Hb (mkframe (FEnum (mkloc file l) w) [])).
+      destruct (proc_items _ _ _ _ _ _ _ body); cbn [bind]; [apply push_then_nofuel|exact Hb].
+    - rewrite proc_item_msg. destruct (x && trad); [reflexivity|].
+      assert (Hb : forall f0, is_fuel (proc_items pc kf trad file fstack (cur :: outer) f0 body) = false).
+      { induction body as [|i r IHr]; intros f0; [reflexivity|].
+        inversion IH as [|? ? Hi Hr]; subst. cbn [proc_items].
+        pose proof (Hi (cur :: outer) f0) as H0.
+        destruct (proc_item pc kf trad file fstack (cur :: outer) f0 i); cbn [bind]; [now apply IHr|exact H0]. }
+      specialize (Hb (mkframe (FMsg (mkloc file l) x) [])).
+      destruct (proc_items _ _ _ _ _ _ _ body) as [fr|]; cbn [bind]; [|exact Hb].
+      unfold close_msg. destruct (GenFront.message_size_raises _); [reflexivity|].
+      destruct (GenFront.message_max_bytes_raises _ _); [reflexivity|]. cbn [bind]. apply push_then_nofuel.
+    - cbn [proc_item]. destruct (is_proto_frame cur).
+      { unfold lex_then_grammar. destruct (tyx_head t); try reflexivity;
+          match goal with |- context [if ?c then _ else _] => destruct c end; reflexivity. }
+      pose proof (resolve_tyx_nofuel (cur :: outer) l t) as Ht.
+      destruct (resolve_tyx file trad (cur :: outer) l t); cbn [bind]; [|exact Ht].
+      destruct (GenFront.field_number_raises k); [reflexivity|apply push_then_nofuel].
+    - cbn [proc_item]. destruct (negb (is_enum_frame cur)); [reflexivity|].
+      destruct (GenFront.enum_value_raises v); [reflexivity|].
+      unfold push_member. destruct (has_name nm (fmem cur)); [reflexivity|].
+      unfold validate_on_push. cbn [def_loc]. destruct (fk cur); cbn [bind]; try reflexivity.
+      destruct (GenFront.enum_value_overflows v n); [reflexivity|].
+      destruct (mem_z v _); reflexivity.
+  Qed.
+
+  Lemma proc_items_nofuel : forall its outer cur,
+    is_fuel (proc_items pc kf trad file fstack outer cur its) = false.
+  Proof.
+    induction its as [|i r IH]; intros outer cur; [reflexivity|].
+    cbn [proc_items]. pose proof (proc_item_nofuel i outer cur) as Hi.
+    destruct (proc_item pc kf trad file fstack outer cur i); cbn [bind]; [apply IH|exact Hi].
+  Qed.
+End NoFuel.
+
+Lemma parse_file_mono fs trad : forall n fstack f,
+  is_fuel (parse_file n fs trad fstack f) = false ->
+  parse_file (S n) fs trad fstack f = parse_file n fs trad fstack f.
+Proof.
+  induction n as [|n IH]; intros fstack f H; [discriminate|].
+  change (parse_file (S (S n)) fs trad fstack f) with
+    (match assoc f fs with
+     | None => Err KIOError f 0
+     | Some its =>
+         do fr <- proc_items (parse_file (S n) fs trad) (known fs) trad f (f :: fstack) []
+                             (mkframe (FProto None) []) its;
+         match fk fr with
+         | FProto (Some name) => Ok (DProto f name (rev (fmem fr)))
+         | _ => Err KProtoNameUndefined f 0
+         end
+     end).
+  cbn [parse_file] in H |- *. destruct (assoc f fs) as [its|]; [|reflexivity].
+  apply bind_fuel in H.
+  rewrite (proc_items_mono (parse_file n fs trad) (parse_file (S n) fs trad) (known fs) trad f (f :: fstack)); [reflexivity| |exact H].
+  intros g _ Hg. now apply IH.
+Qed.
+
+Lemma parse_file_mono_le fs trad fstack f : forall m n,
+  (n <= m)%nat -> is_fuel (parse_file n fs trad fstack f) = false ->
+  parse_file m fs trad fstack f = parse_file n fs trad fstack f.
+Proof.
+  induction m as [|m IH]; intros n Hle H.
+  - assert (n = O) by lia. now subst.
+  - destruct (Nat.eq_dec n (S m)) as [->|N]; [reflexivity|].
+    assert (Hle' : (n <= m)%nat) by lia.
+    rewrite <- (IH n Hle' H). apply parse_file_mono. now rewrite (IH n Hle' H).
+Qed.
+
+Lemma known_in fs g : known fs g = true -> In g (map fst fs).
+Proof.
+  unfold known. induction fs as [|h r IH]; cbn [assoc map In]; [discriminate|].
+  destruct (String.eqb_spec (fst h) g) as [->|N]; [now left|]. intros H. right. now apply IH.
+Qed.
+
+Lemma stack_bounded fs (l : list string) :
+  NoDup l -> (forall g, In g l -> known fs g = true) -> (List.length l <= List.length fs)%nat.
+Proof.
+  intros ND Hk. rewrite <- (map_length fst fs). apply NoDup_incl_length; [exact ND|].
+  intros g Hg. apply known_in. now apply Hk.
+Qed.
+
+Lemma parse_file_nofuel fs trad : forall n fstack f,
+  NoDup fstack -> (forall g, In g fstack -> known fs g = true) ->
+  (List.length fs < n + List.length fstack)%nat ->
+  ~ In f fstack -> known fs f = true ->
+  is_fuel (parse_file n fs trad fstack f) = false.
+Proof.
+  induction n as [|n IH]; intros fstack f ND Hk Hlen Hnf Hf.
+  - exfalso.
+    assert (H : (List.length (f :: fstack) <= List.length fs)%nat).
+    { apply stack_bounded; [now constructor|]. intros g [<-|Hg]; [exact Hf|now apply Hk]. }
+    cbn [List.length] in H. lia.
+  - cbn [parse_file]. destruct (assoc f fs) as [its|]; [|reflexivity].
+    pose proof (proc_items_nofuel (parse_file n fs trad) (known fs) trad f (f :: fstack)) as Hp.
+    assert (Hcalls : forall g, called (known fs) (f :: fstack) g ->
+                               is_fuel (parse_file n fs trad (f :: fstack) g) = false).
+    { intros g [Hg1 Hg2]. apply IH.
+      - now constructor.
+      - intros g' [<-|Hg']; [exact Hf|now apply Hk].
+      - cbn [List.length]. lia.
+      - now apply mem_s_false.
+      - exact Hg1. }
+    specialize (Hp Hcalls its [] (mkframe (FProto None) [])).
+    destruct (proc_items _ _ _ _ _ _ _ its) as [fr|]; cbn [bind]; [|exact Hp].
+    destruct (fk fr) as [[nm|]| |]; reflexivity.
+Qed.
+
+(* Front.check never runs out of fuel *)
+Theorem check_fuel_enough fs root trad : is_fuel (check fs root trad) = false.
+Proof.
+  unfold check. destruct (known fs root) eqn:Ek.
+  - apply parse_file_nofuel; try assumption; [constructor|intros g []|cbn [List.length]; lia|intros []].
+  - cbn [parse_file]. unfold known in Ek. destruct (assoc root fs); [discriminate|reflexivity].
+Qed.
+
+Theorem check_not_fuel fs root trad f l : check fs root trad <> Err KFuel f l.
+Proof. apply is_fuel_err_inv, check_fuel_enough. Qed.
+
+(* ------------------------------------------------------------------------------------ *)
+(* C08                                                                                    *)
+(* ------------------------------------------------------------------------------------ *)
+
+Theorem check_ok_iff_file_ok fs root trad e :
+  check fs root trad = Ok e <-> exists n, file_ok n fs trad false [] root e.
+Proof.
+  split.
+  - intros H. exists (S (List.length fs)). now apply file_sound.
+  - intros [n H]. apply file_complete in H. unfold check.
+    destruct (Nat.le_gt_cases n (S (List.length fs))) as [Hle|Hgt].
+    + rewrite (parse_file_mono_le fs trad [] root _ n Hle); [exact H|now rewrite H].
+    + pose proof (check_fuel_enough fs root trad) as Hc. unfold check in Hc.
+      rewrite <- (parse_file_mono_le fs trad [] root n (S (List.length fs))); [exact H|lia|exact Hc].
+Qed.
+
+Theorem check_sound fs root trad e : check fs root trad = Ok e -> Valid fs root trad.
+Proof. intros H. apply check_ok_iff_file_ok in H. destruct H as [n H]. now exists n, e. Qed.
+
+Theorem check_sound_text fs root trad e : check fs root trad = Ok e -> ValidText fs root trad.
+Proof. intros H. exists (S (List.length fs)), e. now apply file_sound. Qed.
+
+Theorem check_complete fs root trad : Valid fs root trad -> exists e, check fs root trad = Ok e.
+Proof. intros [n [e H]]. exists e. apply check_ok_iff_file_ok. now exists n. Qed.
+
+(* the elaboration is the one the specification describes *)
+Theorem check_elaborates fs root trad e :
+  check fs root trad = Ok e <-> exists n, file_ok n fs trad false [] root e.
+Proof. exact (check_ok_iff_file_ok fs root trad e). Qed.
